@@ -65,6 +65,8 @@ class Tracer:
         self.names = None
         self.cur = None
         self.problems = []
+        self.region = None
+        self.country_name = None
 
     def __enter__(self):
         tr = self
@@ -103,6 +105,15 @@ class Tracer:
                 tr.months.append(tr.cur)
                 tr.cur = None
 
+        self.o_lsu = ap.CountryData.set_livestock_unit_factors
+
+        def lsu(self_c, df_country_info, df_regional_conversion_factors):
+            out = tr.o_lsu(self_c, df_country_info, df_regional_conversion_factors)
+            tr.region = getattr(self_c, "EK_region", None)
+            tr.country_name = self_c.country_name
+            return out
+
+        ap.CountryData.set_livestock_unit_factors = lsu
         ap.AnimalSpecies.feed_the_species = fts
         ap.AnimalPopulation.feed_animals = fa
         ap.AnimalPopulation.appened_current_populations = app
@@ -110,6 +121,7 @@ class Tracer:
 
     def __exit__(self, *exc):
         ap.AnimalSpecies.feed_the_species = self.o_fts
+        ap.CountryData.set_livestock_unit_factors = self.o_lsu
         ap.AnimalPopulation.feed_animals = self.o_fa
         ap.AnimalPopulation.appened_current_populations = self.o_app
         return False
@@ -305,6 +317,8 @@ def one_run(run):
         res["error"] = classify(e) + ": " + str(e)[:300]
         return res
     res["names"] = tr.names
+    res["region"] = tr.region
+    res["country_name"] = tr.country_name
     res["statics"] = tr.statics
     res["n_months"] = len(tr.months)
     # continuity: nothing but the traced month loop changes the carried state
